@@ -85,6 +85,7 @@ type rpcScenario struct {
 	ViaClient  bool
 	Delays     map[string]int
 	Seed       bool // the fixed seed history
+	Big        bool // every vector-long answer is a big one (hundreds of KiB)
 }
 
 func randScenario(r *rand.Rand, thorough bool) rpcScenario {
@@ -136,7 +137,11 @@ func runRPCScenario(e *rpcEnv, r *rand.Rand, sc rpcScenario) scenarioResult {
 	for ci := range jobs {
 		for k := 0; k < sc.PerCaller; k++ {
 			kind := sc.Kinds[r.Intn(len(sc.Kinds))]
-			jobs[ci] = append(jobs[ci], job{uidFor(r, kind, used), kind})
+			uid := uidFor(r, kind, used)
+			for sc.Big && kind == "vector-long" && bigLen(uid) == 0 {
+				uid = uidFor(r, kind, used)
+			}
+			jobs[ci] = append(jobs[ci], job{uid, kind})
 		}
 	}
 	errUID := func(uid uint64) bool { return sc.PError > 0 && float64(stamp(uid^0x5555)%1000)/1000 < sc.PError }
@@ -294,31 +299,57 @@ func c09case(c *wk.Ctx, idx int, r *rand.Rand, sc rpcScenario) {
 	if idx%4 == 2 {
 		r2 := rand.New(rand.NewSource(r.Int63()))
 		e2, err2 := newRPCEnv(c, idx+1<<20, r2, envOpts{Handler: func(e *rpcEnv, p pendingReq, in *mtp.Inner) bool {
-			e.sendGroup(p.conn, [][]byte{e.resultBody(p, wrapOpts{GzipResult: p.uid%3 == 0})}, []uint64{p.uid}, p.uid%5 == 0)
+			e.sendGroup(p.conn, [][]byte{e.resultBody(p, wrapOpts{GzipResult: p.uid%4 != 0})}, []uint64{p.uid}, p.uid%5 == 0)
 			return true
 		}})
+		if idx%8 == 2 {
+			// both clients unpack big packed answers at the same time
+			sc.PGzipRes, sc.Big, sc.Kinds, sc.PError = 1, true, []string{"vector-long"}, 0
+			if sc.Callers < 3 {
+				sc.Callers = 3
+			}
+			if sc.PerCaller < 4 {
+				sc.PerCaller = 4
+			}
+		}
 		if err2 == nil {
 			defer e2.close()
-			noiseWG.Add(1)
-			go func() {
-				defer noiseWG.Done()
-				used2 := map[uint64]bool{}
-				for k := 0; k < 400; k++ {
-					select {
-					case <-noiseStop:
-						return
-					default:
-					}
-					kind := rpcKinds[r2.Intn(len(rpcKinds))]
-					var rec callRec
-					if !withTimeout(20*time.Second, func() { rec = e2.doCall(100, uidFor(r2, kind, used2), kind, k%2 == 0) }) {
-						rec = callRec{Kind: kind, Err: "did not return"}
+			var nmu sync.Mutex
+			used2 := map[uint64]bool{}
+			for g := 0; g < 3; g++ {
+				noiseWG.Add(1)
+				rg := rand.New(rand.NewSource(r2.Int63()))
+				go func(g int) {
+					defer noiseWG.Done()
+					for k := 0; k < 300; k++ {
+						select {
+						case <-noiseStop:
+							return
+						default:
+						}
+						kind := rpcKinds[rg.Intn(len(rpcKinds))]
+						if sc.Big {
+							kind = "vector-long"
+						}
+						nmu.Lock()
+						uid := uidFor(rg, kind, used2)
+						for sc.Big && bigLen(uid) == 0 {
+							uid = uidFor(rg, kind, used2)
+						}
+						nmu.Unlock()
+						var rec callRec
+						if !withTimeout(20*time.Second, func() { rec = e2.doCall(100+g, uid, kind, k%2 == 0) }) {
+							rec = callRec{Kind: kind, Err: "did not return"}
+						}
+						nmu.Lock()
 						noise = append(noise, rec)
-						return
+						nmu.Unlock()
+						if rec.Err != "" {
+							return
+						}
 					}
-					noise = append(noise, rec)
-				}
-			}()
+				}(g)
+			}
 			c.Count("scenarios.with_second_client", 1)
 		}
 	}
